@@ -397,6 +397,18 @@ Fixpoint data_same (a b : list (str * val)) : bool :=
   | (k, v) :: a', (k', w) :: b' => Common.Corr.str_eqb k k' && val_same v w && data_same a' b'
   | _, _ => false
   end.
+Record c09i_case := { i_host : list ctxrec; i_ctx : nat; i_pos : list val; i_kw : list (str * val); i_expr : expr;
+                      i_after : list (list (str * val)); i_res : res val }.
+Definition c09i_ok (k : c09i_case) : bool :=
+  match iface_call 400 (i_host k) (i_ctx k) (i_pos k) (i_kw k) (i_expr k) with
+  | (_, Unsup) | (_, Fuel) => true
+  | (s, r) => Common.Corr.list_eqb data_same (c09_obs s (length (i_host k))) (i_after k)
+              && match r, i_res k with
+                 | Ok v, Ok w => val_same v w
+                 | Err a, Err b => ekind_eqb a b
+                 | _, _ => false
+                 end
+  end.
 Record c09_case := { h_host : list ctxrec; h_ctx : nat; h_data : val; h_expr : expr; h_after : list (list (str * val)) }.
 Definition c09_ok (k : c09_case) : bool :=
   match evaluate 400 (h_host k) (h_ctx k) (Some (h_data k)) (h_expr k) with
@@ -473,6 +485,71 @@ def correspondence(run):
         run.fail("violation", "after evaluation the host's context chain is not what the frame theorem prescribes "
                               "(only `$` of the supplied context may change)",
                  {"program": text, "data": data, "host_contexts_after": repr(after), "theorem": "C09_context_frame"})
+    interface_correspondence(run)
+
+
+def interface_correspondence(run):
+    """YaqlInterface(host_context, engine)(expression, *args, **kwargs) vs Model.Eval.iface_call: result and the host's
+    context chain afterwards (theorem C09_interface_call_frame: the chain is untouched)."""
+    from yaql import yaql_interface
+    g = ec.Gen(run.rng, tick_p=0.0, hist={})
+    cases, meta = [], []
+    for _ in range(run.n(250, 4000)):
+        x, y = run.rng.randrange(0, 9), run.rng.randrange(0, 9)
+        lst = [run.rng.randrange(0, 9) for _ in range(run.rng.randrange(0, 4))]
+        npos = run.rng.randrange(0, 3)
+        pos = [run.rng.randrange(0, 9) for _ in range(npos)]
+        kw = {k: run.rng.randrange(0, 9) for k in run.rng.sample(["k", "m", "x"], run.rng.randrange(0, 3))}
+        env = {"x": "int", "y": "int", "l": "list"}
+        for i in range(npos):
+            env[str(i + 1)] = "int"
+        if npos:
+            env["$"] = "int"
+        for k in kw:
+            env[k] = "int"
+        g.next_tick = 0
+        text = g.int_(env, run.rng.choice([2, 3, 4])) if run.rng.random() < 0.6 else g.list_(env, 3)
+        root = ec.make_context([])
+        parent = root.create_child_context()
+        parent["x"] = x
+        parent["l"] = tuple(lst)
+        host = parent.create_child_context()
+        host["y"] = y
+        try:
+            stmt = ec.engine()(text)
+            model_expr = ec.tr(stmt)
+        except Exception:
+            run.cov["skipped"] += 1
+            continue
+        try:
+            r = ("ok", yaql_interface.YaqlInterface(host, ec.engine())(text, *pos, **kw))
+        except Exception as e:
+            r = ("err", ec.err_kind(e))
+        snap = lambda c: [(k.lstrip("$"), c[k]) for k in c.keys()]
+        try:
+            after = [snap(parent), snap(host)]
+            rec = lambda par, d: "{| cparent := %s; cdata := %s; cfuncs := [] |}" % (
+                "None" if par is None else "(Some %d%%nat)" % par,
+                gal.lst("(%s, %s)" % (gal.s(k), ec.val_term(v)) for k, v in d))
+            term = "{| i_host := %s; i_ctx := 1%%nat; i_pos := %s; i_kw := %s; i_expr := %s; i_after := %s; i_res := %s |}" % (
+                gal.lst([rec(None, [("x", x), ("l", tuple(lst))]), rec(0, [("y", y)])]),
+                gal.lst(ec.val_term(v) for v in pos), gal.lst("(%s, %s)" % (gal.s(k), ec.val_term(v)) for k, v in kw.items()),
+                model_expr, gal.lst(gal.lst("(%s, %s)" % (gal.s(k), ec.val_term(v)) for k, v in layer) for layer in after),
+                ec.res_term(r))
+        except ec.Unsupported:
+            run.cov["skipped"] += 1
+            continue
+        cases.append(term)
+        meta.append((text, pos, kw, after, r))
+        run.case(("iface", text, tuple(pos), tuple(sorted(kw.items()))), nontrivial=bool(pos or kw))
+        run.count("interface_call_case")
+    bad = run.coq_mismatches(HEADER, "c09i_case", "c09i_ok", cases, shard=250)
+    for i in bad[:3]:
+        text, pos, kw, after, r = meta[i]
+        run.fail("violation", "a call through a host-built YaqlInterface: the result or the host's context chain afterwards is not "
+                              "what the reference model prescribes (the chain must be untouched)",
+                 {"program": text, "positional": pos, "keyword": kw, "host_contexts_after": repr(after), "observed": repr(r),
+                  "theorem": "C09_interface_call_frame"})
 
 
 def handmade(run):
